@@ -102,8 +102,10 @@ class Report:
               "wall_s": round(time.time() - self.t0, 2), "violations": len(self.violations)}
         if self.harness_errors:
             ev["harness_errors"] = self.harness_errors[:20]
-        os.makedirs(os.path.join(VERIF, "evidence"), exist_ok=True)
-        with open(os.path.join(VERIF, "evidence", self.pid + ".json"), "w") as fh:
+        # mutant trials (tools/try_mutant.sh) run against a scratch tree and must not overwrite the registered evidence
+        evdir = os.path.join(VERIF, "evidence") if not os.environ.get("VERIF_NO_EVIDENCE") else os.path.join(repo.CACHE, "trial-evidence")
+        os.makedirs(evdir, exist_ok=True)
+        with open(os.path.join(evdir, self.pid + ".json"), "w") as fh:
             json.dump(ev, fh, indent=1, default=str)
             fh.write("\n")
         for sig, n in sorted(self.known_hits.items()):
